@@ -3,7 +3,7 @@
   and supporting lemmas about `DUnion` on such inputs.
 -/
 import J2M.Proofs.Optimize
-namespace J2M
+namespace J2M.C08P
 
 /-! ### the predicate -/
 
@@ -13,7 +13,7 @@ def litRawOk (c : LitCfg) (ov : Bool) (vs : List String) : Bool :=
   else !vs.isEmpty && !(decide (vs.length > c.maxLiterals) || vs.any (fun s => decide (s.length ≥ c.maxStrLen)))
 
 /-- overflowed or empty literal: `optimize_type` turns it into `str` -/
-def Ty.isBadLit : Ty → Bool | .lit ov vs => ov || vs.isEmpty | _ => false
+def _root_.J2M.Ty.isBadLit : Ty → Bool | .lit ov vs => ov || vs.isEmpty | _ => false
 
 /-- the shape `DUnion.__init__` guarantees: non-empty, flat, no overflowed/empty literal,
     pairwise distinct hash strings, at most one literal -/
@@ -494,7 +494,7 @@ theorem mergeFieldSets_rawF {cfg : GenCfg} {e : EqEnv} {sets : List Fields} {fie
   mergeGo_rawF sets hsets true [] fields' (fun _ h => by cases h) h
 
 theorem AllRawF.Raw {cfg : GenCfg} {fs : Fields} (h : AllRawF cfg fs) : Raw cfg (.obj fs) = true := by
-  simp only [J2M.Raw, List.all_eq_true]
+  simp only [C08P.Raw, List.all_eq_true]
   exact fun kv hkv => h kv hkv
 
 /-! ### `detect` produces raw metadata -/
@@ -649,4 +649,4 @@ theorem convertFields_rawD (cfg : GenCfg) (o : GenOracles) :
         · exact convertFields_rawD cfg o xs fs' hfs' u hu
 end
 
-end J2M
+end J2M.C08P
